@@ -34,6 +34,7 @@ class C13(fw.Prop):
 
             def impl():
                 from dlms_cosem.hdlc.address import HdlcAddress
+                fw.prime_failed_parses()
                 try:
                     a = HdlcAddress(l, p, "client" if t == "c" else "server")
                 except ValueError:
@@ -106,6 +107,9 @@ class C13(fw.Prop):
                 body = head + crc_x25(head) + info
                 return b"\x7e" + body + crc_x25(body) + b"\x7e"
             ua, iframe = wire_of(0x73, b""), wire_of(0x30, b"\xe6\xe7\x00\xc4\x01")
+            n_rr = 2 + len(cb) + len(sb) + 1 + 2
+            rr_head = (0xA000 | n_rr).to_bytes(2, "big") + cb + sb + bytes([0x51])
+            rr = b"\x7e" + rr_head + crc_x25(rr_head) + b"\x7e"        # RR acknowledging the client's second (segmented) frame
 
             def impl():
                 from dlms_cosem.hdlc import frames, state as hstate
@@ -135,13 +139,20 @@ class C13(fw.Prop):
                 if f1 is not None:
                     conn.send(frames.InformationFrame(server, client, b"\xe6\xe6\x00\xc0\x01", send_sequence_number=0, receive_sequence_number=0))
                 f2 = deliver(iframe) if f1 is not None else None
-                for f in (f1, f2):
+                f3 = None
+                if f2 is not None:
+                    conn.send(frames.InformationFrame(server, client, b"\xe6\xe6\x00" + bytes(20), send_sequence_number=1, receive_sequence_number=1,
+                                                      segmented=True))
+                    f3 = deliver(rr)
+                for f in (f1, f2, f3):
                     if f is None:
                         return "ok never-delivered"
                     dd, ss = f.destination_address, f.source_address
                     out.append(f"{dd.logical_address} {opt(dd.physical_address)} {len(dd.to_bytes())} {ss.logical_address} {opt(ss.physical_address)} {len(ss.to_bytes())}")
                 if out[0] != out[1]:
                     return "ok " + out[0] + " !information-frame-names:" + out[1]
+                if out[0] != out[2]:
+                    return "ok " + out[0] + " !receive-ready-frame-names:" + out[2]
                 return "ok " + out[0]
             return fw.Case(f"addr find {ua.hex()}", impl, "prop", d, tags=("via-connection",))
         if op == "typename":
@@ -270,6 +281,15 @@ class C13(fw.Prop):
                 if t == "c" and p is not None:
                     continue
                 yield mk({"op": "typename", "t": t, "l": l, "p": p, "spelled": spelled})
+        # every frame a client writes during a session (SNRM, information frames of a segmented request, RR for the segments of
+        # the answer, DISC) is addressed to its server from itself: whole sessions against the reactive meter of C18, which counts a
+        # frame with other addresses as a violation
+        from harness.props import c18
+        for server, client in (([1, 17], 16), ([1, None], 1), ([200, 5], 16), ([5, 200], 17), ([16383, 16383], 127), ([63, 17], 16), ([1, 0], 1)):
+            d18 = {"maxData": 128, "maxInfo": 128, "vs": 0, "vr": 0, "gran": rng.choice(["whole", "bytewise", "random"]), "gseed": rng.randrange(10 ** 6),
+                   "server": server, "client": client,
+                   "ops": [["connect"]] + c18.PROP.exchange(rng, 300, 3, 300) + c18.PROP.exchange(rng, 10, 2, 5) + [["disconnect"]], "tag": "session-addresses"}
+            yield c18.PROP.make_case(d18)
         for cl, sl, sp in ((16, 1, 17), (1, 1, None), (16, 1, 0), (127, 127, 127), (16, 200, 5), (16, 5, 200), (16, 16383, 16383)):
             yield mk({"op": "client", "client": cl, "sl": sl, "sp": sp})
         for _ in range(20000 if deep else 1500):
